@@ -16,24 +16,24 @@ import (
 // sites are found with the go/types information of the original.
 
 type c12mutant struct {
-	Op     string // catalogue number + variant, e.g. "01-operand-string/+"
-	Ctx    string // context shape of the site (enclosing syntactic roles up to the statement)
-	Src    string
-	Line   string // the mutated source line(s), for reports
-	RefErr string
+	Op      string // catalogue number + variant, e.g. "01-operand-string/+"
+	Ctx     string // context shape of the site (enclosing syntactic roles up to the statement)
+	Src     string
+	Line    string // the mutated source line(s), for reports
+	RefErr  string
 	Prelude bool // the site lies in the fixed prelude
 }
 
 type c12mctx struct {
-	src   string
-	ck    *c12Checked
-	out   []c12mutant
-	stack []ast.Node
+	src        string
+	ck         *c12Checked
+	out        []c12mutant
+	stack      []ast.Node
 	preludeEnd int
 }
 
-func (m *c12mctx) off(p token.Pos) int      { return m.ck.Fset.Position(p).Offset }
-func (m *c12mctx) text(n ast.Node) string   { return m.src[m.off(n.Pos()):m.off(n.End())] }
+func (m *c12mctx) off(p token.Pos) int    { return m.ck.Fset.Position(p).Offset }
+func (m *c12mctx) text(n ast.Node) string { return m.src[m.off(n.Pos()):m.off(n.End())] }
 func (m *c12mctx) typeOf(e ast.Expr) types.Type {
 	if tv, ok := m.ck.Info.Types[e]; ok {
 		return tv.Type
